@@ -10,3 +10,6 @@ open GoSQLXModel
 #print axioms Props.C12.strict_terminates
 #print axioms Props.C12.recovery_terminates
 #print axioms Props.C01.gen_parser_loops_leave_at_end
+#print axioms ExprParse.prog
+#print axioms ExprParse.pExpr_progress
+#print axioms Props.C01.expression_ladder_moves_forward
